@@ -985,3 +985,162 @@ Fixpoint pair_loop_t (fuel : nat) (tc ts : input -> list input) (ccfg : cconfig)
 Definition pair_run_t (tc ts : input -> list input) (ccfg : cconfig) (scfg : sconfig)
   : (cstate * pstat) * (sstate * pstat) :=
   pair_loop_t 8 tc ts ccfg scfg (client_init ccfg) PRunning server_init PRunning.
+
+(* ====================================================================================== *)
+(* Records: several handshake messages per record, ChangeCipherSpec as a record of its own  *)
+(* ====================================================================================== *)
+(* conn.go: readRecord appends the payload of a handshake record to c.hand; readHandshake takes one message at a
+   time out of c.hand and only reads a record when c.hand is empty; readRecord(recordTypeChangeCipherSpec) - called by
+   readFinished - reads the NEXT RECORD whatever c.hand holds, rejects a handshake record (typ != want) and rejects a
+   ChangeCipherSpec while c.hand still holds data ("handshake messages are not allowed to fragment across the CCS"). *)
+Inductive hitem :=
+| HMsg (m : hmsg)            (* a message the type's unmarshal accepts *)
+| HMalformed (ty : N)
+| HUnknown
+| HTooLong.
+
+Definition hitem_input (h : hitem) : input :=
+  match h with HMsg m => IHs m | HMalformed ty => IHsMalformed ty | HUnknown => IHsUnknown | HTooLong => IHsTooLong end.
+
+Inductive record :=
+| RHs (items : list hitem)   (* one handshake record carrying these messages, in order *)
+| RCCS (body_ok : bool)
+| RAlert (level desc : N)
+| RAlertBad
+| RAppData
+| RBad
+| REOF.
+
+(* the records that are neither handshake nor ChangeCipherSpec, as inputs *)
+Definition other_input (r : record) : input :=
+  match r with
+  | RAlert l d => IAlert l d
+  | RAlertBad => IAlertBad
+  | RAppData => IAppData
+  | RBad => IBadRecord
+  | _ => IEOF
+  end.
+
+Definition flatten_record (r : record) : list input :=
+  match r with
+  | RHs items => map hitem_input items
+  | RCCS ok => [ICCS ok]
+  | _ => [other_input r]
+  end.
+Definition flatten (recs : list record) : list input := flat_map flatten_record recs.
+
+Section Records.
+  Context {St : Type} (step : St -> input -> St * sres) (wants_ccs : St -> bool).
+
+  (* readHandshake over the messages of the record just read.  Result: state, outcome, and whether messages of the
+     record are left in c.hand because the endpoint now waits for a ChangeCipherSpec *)
+  Fixpoint feed_items (st : St) (items : list hitem) : St * sres * bool :=
+    match items with
+    | [] => (st, SContinue, false)
+    | h :: rest =>
+        if wants_ccs st then (st, SContinue, true)
+        else match step st (hitem_input h) with
+             | (st', SContinue) => feed_items st' rest
+             | (st', r) => (st', r, false)
+             end
+    end.
+
+  (* one record; leftover: c.hand holds unconsumed handshake data *)
+  Definition rstep (st : St) (leftover : bool) (r : record) : St * sres * bool :=
+    match r with
+    | RHs items =>
+        if wants_ccs st then (st, SError, leftover)        (* handshake record while a ChangeCipherSpec is expected *)
+        else feed_items st items
+    | RCCS ok =>
+        if leftover then (st, SError, leftover)            (* handshake data must not span the ChangeCipherSpec *)
+        else let '(st', res) := step st (ICCS ok) in (st', res, false)
+    | _ =>
+        let '(st', res) := step st (other_input r) in
+        (st', match res with SContinue => if is_eof (other_input r) then SHang else SContinue | _ => res end, leftover)
+    end.
+
+  (* Handshake() on a finite sequence of records *)
+  Fixpoint rrun (st : St) (leftover : bool) (recs : list record) : result St :=
+    match recs with
+    | [] => RWaiting st
+    | r :: rest =>
+        match rstep st leftover r with
+        | (st', SContinue, lo) => rrun st' lo rest
+        | (st', SComplete, _) => RComplete st'
+        | (_, SError, _) => RError
+        | (_, SPanic, _) => RPanic
+        | (_, SHang, _) => RHang
+        end
+    end.
+
+  (* the same, incrementally (for two endpoints talking to each other) *)
+  Fixpoint rfeed (st : St) (leftover : bool) (stat : pstat) (recs : list record) : St * bool * pstat :=
+    match recs with
+    | [] => (st, leftover, stat)
+    | r :: rest =>
+        match stat with
+        | PRunning =>
+            match rstep st leftover r with
+            | (st', SContinue, lo) => rfeed st' lo PRunning rest
+            | (st', SComplete, lo) => (st', lo, PDone)
+            | (st', SError, lo) => (st', lo, PFailed)
+            | (st', _, lo) => (st', lo, PCrashed)
+            end
+        | _ => (st, leftover, stat)
+        end
+    end.
+End Records.
+
+Definition client_wants_ccs (st : cstate) : bool := match cs_phase st with CP_CCS => true | _ => false end.
+Definition server_wants_ccs (st : sstate) : bool := match ss_phase st with SP_CCS => true | _ => false end.
+
+Definition client_rrun (cfg : cconfig) (recs : list record) : result cstate :=
+  rrun (client_step cfg) client_wants_ccs (client_init cfg) false recs.
+Definition server_rrun (cfg : sconfig) (recs : list record) : result sstate :=
+  rrun (server_step cfg) server_wants_ccs server_init false recs.
+
+(* ====================================================================================== *)
+(* Server-name matching (x509.Certificate.VerifyHostname / matchHostnames), for DNS names  *)
+(* ====================================================================================== *)
+(* Names are byte strings.  Lower-case ASCII, drop one trailing dot, split at dots; the names match when they have
+   the same number of labels, every label but the first is equal, and the first label of the pattern is equal or
+   is the single character '*'.  A wildcard stands for exactly one label. *)
+Definition lower_ascii (c : N) : N := if (65 <=? c) && (c <=? 90) then c + 32 else c.
+
+Fixpoint split_dots (s : list N) (cur : list N) : list (list N) :=
+  match s with
+  | [] => [rev cur]
+  | c :: r => if c =? 46 then rev cur :: split_dots r [] else split_dots r (c :: cur)
+  end.
+
+Definition trim_dot (s : list N) : list N :=
+  match rev s with
+  | c :: r => if c =? 46 then rev r else s
+  | [] => s
+  end.
+
+Fixpoint bytes_eqb (a b : list N) : bool :=
+  match a, b with
+  | [], [] => true
+  | x :: a', y :: b' => (x =? y) && bytes_eqb a' b'
+  | _, _ => false
+  end.
+
+Fixpoint labels_eqb (a b : list (list N)) : bool :=
+  match a, b with
+  | [], [] => true
+  | x :: a', y :: b' => bytes_eqb x y && labels_eqb a' b'
+  | _, _ => false
+  end.
+
+Definition match_hostnames (pattern host : list N) : bool :=
+  let p := trim_dot (map lower_ascii pattern) in
+  let h := trim_dot (map lower_ascii host) in
+  match p, h with
+  | [], _ | _, [] => false
+  | _, _ =>
+      match split_dots p [], split_dots h [] with
+      | p0 :: pr, h0 :: hr => (bytes_eqb p0 [42] || bytes_eqb p0 h0) && labels_eqb pr hr
+      | _, _ => false
+      end
+  end.
